@@ -843,7 +843,7 @@ def parse_model(out):
     kv = dict(t.split('=', 1) for t in head.split() if '=' in t)
     cs = Fraction(kv['cs'])
     hm = None if kv.get('hmin') == 'none' else Fraction(kv['hmin'])
-    flags = {k: kv[k] for k in ('grid', 'tree', 'cache') if k in kv}
+    flags = {k: kv[k] for k in ('grid', 'tree', 'cache', 'store') if k in kv}
     return cs, hm, flags, ('P ' + ptxt) if ptxt else ''
 
 
